@@ -610,6 +610,11 @@ def reset(elements: bool = True, default_parameters: bool = True):
         _ELEMENTS.clear()
         _ELEMENTS.update(_DEFAULT_ELEMENTS)
 
+        key: str
+        for key in list(_PRIVATE_ELEMENTS.keys()):
+            if key not in _DEFAULT_ELEMENTS:
+                _PRIVATE_ELEMENTS.pop(key)
+
     if default_parameters:
         reset_default_parameter_values()
 
